@@ -117,6 +117,9 @@ func (m *Machine) curProc() int {
 func (m *Machine) step(visible bool, what string) {
 	fs := m.needFS()
 	fs.nsteps++
+	if m.quietFS {
+		return
+	}
 	s := m.sched
 	if s == nil || !s.active {
 		fs.trace = append(fs.trace, fmt.Sprintf("P%d %s", m.mainProc, what))
